@@ -1,40 +1,21 @@
 /-
   EG.Driver.Styled — model side of the `styled.*` correspondence streams (harness/src/m_styled.rs).
 
-  A shape kind is served by giving its `StyledView` (what the streams observe of a styled shape)
-  as a function of the translation applied to the primitive; the result lines are formatted from
-  the view exactly as `execute` in m_styled.rs formats the real results. Kinds without a model
-  return `none` (printed `skip`). Modelled kinds: `rect` (EG.Model.StyledRect), `circle`, `ellipse`,
-  `rrect` (EG.Model.Circle / Ellipse / RoundedRect).
+  A shape kind is served through its `StyledView` (Driver/ShapeView.lean: what the streams observe of
+  a styled shape - call list of `draw()`, `pixels()`, bounding boxes - as a function of the
+  translation applied to the primitive); the result lines are formatted from the view exactly as
+  `execute` in m_styled.rs formats the real results. Every shape kind of shapes.rs is served: `rect`
+  (EG.Model.StyledRect), `circle`, `ellipse`, `rrect` (EG.Model.Circle / Ellipse / RoundedRect), `line`
+  (EG.Model.ThickLine), `poly` (EG.Model.ThickPolyline), `tri` (EG.Model.ThickTriangle) with every
+  stroke width, alignment and colour option, `arc` / `sector` (EG.Model.StyledArc / StyledSector) when
+  the op line carries the hook tokens `hk tag lx ly rx ry [bk bnx bny]` (appended by the generator;
+  lines without them are printed `skip`). `styled.areas` is served for the closed shapes only (the
+  only ones it is generated for). Ops with a dotted stroke (`styled.* dotted ..`) have no model
+  (`skip`). Where a model function is `Option`-valued and returns `none` (fuel), the line is `stuck`.
 -/
-import EG.Driver.Util
-import EG.Model.StyledRect
-import EG.Model.CallTranslate
-import EG.Model.Circle
-import EG.Model.Ellipse
-import EG.Model.RoundedRect
+import EG.Driver.ShapeView
 namespace EG.Driver
 open EG
-
-/-- What the `styled.*` streams observe of one styled shape. -/
-private structure StyledView where
-  calls : List Call     -- `draw()` as target calls
-  pixels : Writes       -- `pixels()`
-  bbox : Rect           -- `bounding_box()` of the styled shape
-  fa : Rect             -- `fill_area().bounding_box()`
-  sa : Rect             -- `stroke_area().bounding_box()`
-
-private def parseOptColor (s : String) : Option Color := if s == "-" then none else some (parseNat s)
-
-private def alignOf : Nat → StrokeAlignment | 0 => .inside | 1 => .center | _ => .outside
-
-/-- style tokens: `fill stroke width align`. -/
-private def Toks.style (t : Toks) : Style × Toks :=
-  let (f, t) := t.str
-  let (s, t) := t.str
-  let (w, t) := t.nat
-  let (a, t) := t.nat
-  (⟨parseOptColor f, parseOptColor s, w, alignOf a⟩, t)
 
 /-- `Rec::unbounded()` of the harness. -/
 private def unboundedBox : Rect := ⟨⟨-1048576, -1048576⟩, ⟨2097152, 2097152⟩⟩
@@ -55,91 +36,55 @@ private def shiftPix (d : Pt) (m : List (Pt × Nat)) : List (Pt × Nat) := m.map
 
 private def b01 (b : Bool) : String := if b then "1" else "0"
 
+private def stuckOr (o : Option String) : Option String :=
+  match o with
+  | some s => some s
+  | none => some "stuck"
+
 /-- Result line of one `styled.*` op from the view of the shape (`view d` = the view of the
 primitive translated by `d`); `t` = the tokens after the style. -/
 private def styledResult (stream : String) (view : Pt → StyledView) (t : Toks) : Option String :=
   let v := view ⟨0, 0⟩
   match stream with
-  | "styled.paths" =>
+  | "styled.paths" => stuckOr do
     let (tb, _) := t.rect
-    let m1 := mapDefault tb v.calls
-    let m2 := mapNative tb v.calls
-    let mp := mapDefault tb [Call.drawIter v.pixels]
-    let l1 := fmtLogR1 tb v.calls
-    some s!"r1={smallMap m1} r2eq={b01 (m1 == m2)} pxeq={b01 (m1 == mp)} log={smallText l1 4000}"
-  | "styled.bbox" =>
-    let m := mapDefault unboundedBox v.calls
-    let out := m.filter (fun w => !v.bbox.contains w.1)
-    some s!"bb={fmtRect v.bbox} n={m.length} h={pixDigest m} out={out.length}"
+    let calls ← v.calls ()
+    let px ← v.pixels ()
+    let m1 := mapDefault tb calls
+    let m2 := mapNative tb calls
+    let mp := mapDefault tb [Call.drawIter px]
+    let l1 := fmtLogR1 tb calls
+    pure s!"r1={smallMap m1} r2eq={b01 (m1 == m2)} pxeq={b01 (m1 == mp)} log={smallText l1 4000}"
+  | "styled.bbox" => stuckOr do
+    let calls ← v.calls ()
+    let bbox ← v.bbox ()
+    let m := mapDefault unboundedBox calls
+    let out := m.filter (fun w => !bbox.contains w.1)
+    pure s!"bb={fmtRect bbox} n={m.length} h={pixDigest m} out={out.length}"
   | "styled.areas" =>
-    let m := mapDefault unboundedBox v.calls
-    some s!"m={smallMap m} fa={fmtRect v.fa} sa={fmtRect v.sa}"
-  | "styled.translate" =>
+    -- generated for closed shapes only (the harness panics on any other kind)
+    match v.fa, v.sa with
+    | some fa, some sa => stuckOr do
+      let calls ← v.calls ()
+      let m := mapDefault unboundedBox calls
+      pure s!"m={smallMap m} fa={fmtRect fa} sa={fmtRect sa}"
+    | _, _ => none
+  | "styled.translate" => stuckOr do
     let (d, _) := t.pt
     let vd := view d
-    let m0 := mapDefault unboundedBox v.calls
-    let md := mapDefault unboundedBox vd.calls
-    some s!"n={m0.length} h={pixDigest m0} shifted={b01 (md == shiftPix d m0)} bb={fmtRect v.bbox} bbd={fmtRect vd.bbox}"
+    let c0 ← v.calls ()
+    let cd ← vd.calls ()
+    let bb ← v.bbox ()
+    let bbd ← vd.bbox ()
+    let m0 := mapDefault unboundedBox c0
+    let md := mapDefault unboundedBox cd
+    pure s!"n={m0.length} h={pixDigest m0} shifted={b01 (md == shiftPix d m0)} bb={fmtRect bb} bbd={fmtRect bbd}"
   | _ => none
-
-private def rectView (s : Style) (r : Rect) : StyledView :=
-  { calls := StyledRect.drawCalls s r
-    pixels := StyledRect.pixelsList s r
-    bbox := StyledRect.styledBoundingBox s r
-    fa := StyledRect.fillArea s r
-    sa := StyledRect.strokeArea s r }
-
-private def primStyle (s : Style) : PrimStyle := ⟨s.fill, s.stroke, s.width, s.align⟩
-
-private def circleView (s : Style) (c : Circle) : StyledView :=
-  let st := primStyle s
-  { calls := c.drawStyled st
-    pixels := c.styledPixels st
-    bbox := c.styledBoundingBox st
-    fa := (c.fillArea st).boundingBox
-    sa := (c.strokeArea st).boundingBox }
-
-private def ellipseView (s : Style) (e : Ellipse) : StyledView :=
-  let st := primStyle s
-  { calls := e.drawStyled st
-    pixels := e.styledPixels st
-    bbox := e.styledBoundingBox st
-    fa := (e.fillArea st).boundingBox
-    sa := (e.strokeArea st).boundingBox }
-
-private def rrectView (s : Style) (r : RoundedRect) : StyledView :=
-  { calls := r.drawStyled s
-    pixels := r.styledPixels s
-    bbox := r.styledBoundingBox s
-    fa := (r.fillArea s).boundingBox
-    sa := (r.strokeArea s).boundingBox }
 
 def handleStyled (stream : String) (t : Toks) : Option String :=
   if !stream.startsWith "styled." then none else
-  let (kind, t) := t.str
-  match kind with
-  | "rect" =>
-    let (r, t) := t.rect
-    let (s, t) := t.style
-    styledResult stream (fun d => rectView s (r.translate d)) t
-  | "circle" =>
-    let (p, t) := t.pt
-    let (d0, t) := t.nat
-    let (s, t) := t.style
-    styledResult stream (fun d => circleView s ((⟨p, d0⟩ : Circle).translate d)) t
-  | "ellipse" =>
-    let (p, t) := t.pt
-    let (sz, t) := t.sz
-    let (s, t) := t.style
-    styledResult stream (fun d => ellipseView s ((⟨p, sz⟩ : Ellipse).translate d)) t
-  | "rrect" =>
-    let (r, t) := t.rect
-    let (tl, t) := t.sz
-    let (tr, t) := t.sz
-    let (br, t) := t.sz
-    let (bl, t) := t.sz
-    let (s, t) := t.style
-    styledResult stream (fun d => rrectView s ((⟨r, ⟨tl, tr, br, bl⟩⟩ : RoundedRect).translate d)) t
-  | _ => none
+  match parseShapeView t with
+  | some (view, t) => styledResult stream view t
+  | none => none
 
 end EG.Driver
